@@ -303,17 +303,29 @@ def _alternatives(body, local, depth=0, proj0=()):
     out = []
     cur, proj = local, [x for x in proj0 if x != "*"]
     for _ in range(20):
-        ds = M.real_defs(body, cur)
+        ds = M.value_defs(body, cur)
         if len(ds) == 1 and ds[0][1] != "term" and ds[0][2]["rv"]["k"] in ("use", "cast") and op_place(ds[0][2]["rv"]["op"]) is not None:
             p = op_place(ds[0][2]["rv"]["op"])
             cur, proj = p["l"], [x for x in p["p"] if x != "*"] + proj
             continue
+        if len(ds) == 1 and ds[0][1] != "term" and ds[0][2]["rv"]["k"] == "ref":
+            p = ds[0][2]["rv"]["pl"]
+            cur, proj = p["l"], [x for x in p["p"] if x != "*"] + proj
+            continue
+        if len(ds) == 1 and ds[0][1] == "term" and fn_matches(ds[0][2], r"clone::Clone::clone$", r"ops::Deref::deref$", r"borrow::Borrow::borrow$") and ds[0][2]["args"] and op_place(ds[0][2]["args"][0]) is not None:
+            p = op_place(ds[0][2]["args"][0])
+            cur, proj = p["l"], [x for x in p["p"] if x != "*"] + proj
+            continue
         break
-    ds = M.real_defs(body, cur)
+    ds = M.value_defs(body, cur)
     idx = next((x for x in proj if re.match(r"^\.\d+$", x)), None)
     for b, i, d in ds:
         if i == "term":
-            out.append((b, cur, None))
+            if fn_matches(d, r"clone::Clone::clone$", r"ops::Deref::deref$", r"borrow::Borrow::borrow$", r"ToOwned::to_owned$") and d["args"] and op_place(d["args"][0]) is not None and depth < 4:
+                sub = _alternatives(body, op_place(d["args"][0])["l"], depth + 1)
+                out += [(b if len(sub) == 1 else sb, sl, so) for sb, sl, so in sub] if sub else [(b, cur, None)]
+            else:
+                out.append((b, cur, None))
             continue
         rv = d["rv"]
         if idx is not None and rv["k"] == "agg" and rv.get("tuple"):
@@ -321,9 +333,10 @@ def _alternatives(body, local, depth=0, proj0=()):
             others = [o for k, o in enumerate(rv["ops"]) if k != int(idx[1:])]
             if op_place(op) is not None:
                 out.append((b, op_place(op)["l"], others))
-        elif rv["k"] in ("use", "cast") and op_place(rv["op"]) is not None and depth < 3:
-            sub = _alternatives(body, op_place(rv["op"])["l"], depth + 1)
-            out += [(b if len(sub) == 1 else sb, sl, so) for sb, sl, so in sub] if sub else [(b, op_place(rv["op"])["l"], None)]
+        elif ((rv["k"] in ("use", "cast") and op_place(rv["op"]) is not None) or rv["k"] == "ref") and depth < 4:
+            src = op_place(rv["op"]) if rv["k"] != "ref" else rv["pl"]
+            sub = _alternatives(body, src["l"], depth + 1)
+            out += [(b if len(sub) == 1 else sb, sl, so) for sb, sl, so in sub] if sub else [(b, src["l"], None)]
         else:
             out.append((b, cur, None))
     return out
@@ -829,10 +842,10 @@ def named_composition_rule(crate, prop, rule="C14.R7"):
             "inline_flattened": {"empty-object", "object", "object&flattened", "flattened"}}
     for nm in ("inline", "inline_flattened"):
         g = got.get(nm, set())
-        missing = sorted(need[nm] - g)
-        extra = sorted(x for x in g if x.startswith("?") and x != "?")
+        unknown = any(x.startswith("?") for x in g)
+        missing = sorted(need[nm] - g) if not unknown else []      # an alternative that could not be read may be the missing one: undecided
         bad = nm == "inline_flattened" and "flattened-unparenthesised" in g
-        r.inst(fn=b.path, value=nm, forms=sorted(g), missing=missing, ok=not missing and not bad)
+        r.inst(fn=b.path, value=nm, forms=sorted(g), missing=missing, undecided=unknown, ok=not missing and not bad)
         if not g:
             r.fail(prop, "anchor-missing named.%s table" % nm, "the alternatives of DerivedTS.%s built by named() could not be found" % nm, b.file(), b.line())
         elif missing or bad:
